@@ -85,6 +85,11 @@ func chainSyncSetup(s *rt.Sim, tier string) func() {
 		}
 		useRaw := chance("cfg", 1, 2)
 		slow := chance("cfg", 1, 3)
+		// F15: Stop is called by another task while the stream flows and a callback is in flight
+		stopMid := !cleanStop && chance("cfg", 1, 4)
+		stopMidAt := pick("cfg", nops)
+		stopMidRet := false
+		var cConn, sConn *ouroboros.Connection
 		// server application
 		next := 0
 		sendOp := func(srv *chainsync.Server, op csOp) error {
@@ -150,6 +155,15 @@ func chainSyncSetup(s *rt.Sim, tier string) func() {
 				maxOutstanding = out
 			}
 			cbs = append(cbs, rec)
+			if stopMid && len(cbs)-1 == stopMidAt {
+				rt.Fault("F15.stop-while-streaming")
+				go func() {
+					sleep(oneOf("op", 0, time.Millisecond, 50*time.Millisecond))
+					_ = cConn.ChainSync().Client.Stop()
+					stopMidRet = true
+				}()
+				sleep(oneOf("op", 0, 10*time.Millisecond, time.Second))
+			}
 			if slow && chance("op", 1, 4) {
 				sleep(oneOf("op", 10*time.Millisecond, time.Second, 5*time.Second))
 			}
@@ -182,7 +196,6 @@ func chainSyncSetup(s *rt.Sim, tier string) func() {
 		sCfg := chainsync.NewConfig(chainsync.WithRequestNextFunc(requestNext), chainsync.WithFindIntersectFunc(findIntersect))
 		co := connOpts{ntn: ntn, magic: 42, keepAlive: ntn}
 		so := connOpts{ntn: ntn, magic: 42, server: true}
-		var cConn, sConn *ouroboros.Connection
 		var cErr, sErr error
 		cRet, sRet := false, false
 		go func() {
@@ -210,6 +223,34 @@ func chainSyncSetup(s *rt.Sim, tier string) func() {
 		expect := len(hist)
 		if stopAt >= 0 {
 			expect = stopAt + 1
+		}
+		if stopMid {
+			// only this is judged: Stop returns, nothing panics, and what the application
+			// saw until then is a prefix of the server's history (requests may be outstanding,
+			// so the conversation cannot end cleanly and errors are not judged)
+			for i := 0; i < 9000 && !stopMidRet && len(cbs) <= stopMidAt && len(cw.errs) == 0 && len(sw.errs) == 0; i++ {
+				sleep(200 * time.Millisecond)
+			}
+			if len(cbs) > stopMidAt {
+				for i := 0; i < 6000 && !stopMidRet; i++ {
+					sleep(200 * time.Millisecond)
+				}
+				if !stopMidRet {
+					rt.Violate("C21/stop-hangs", "ntn=%v limit=%d: Client.Stop, called while callback #%d was in flight, had not returned after 20 simulated minutes", ntn, limit, stopMidAt)
+					return
+				}
+				rt.Hit("cs.stop-while-streaming-returned")
+			}
+			sleep(10 * time.Second)
+			for i, cb := range cbs {
+				if i >= len(hist) || cb.kind != hist[i].kind || cb.tip.BlockNumber != hist[i].tip.BlockNumber {
+					rt.Violate("C21/callback-order", "ntn=%v limit=%d stop-while-streaming: callback #%d is not the server's update #%d", ntn, limit, i, i)
+					return
+				}
+			}
+			cConn.Close()
+			sConn.Close()
+			return
 		}
 		// run until the expected callbacks were seen (NtC keeps the muxer deadline quiet through its own traffic only)
 		for i := 0; i < 6000 && len(cbs) < expect && len(cw.errs) == 0 && len(sw.errs) == 0; i++ {
